@@ -106,6 +106,13 @@ def injections(rng, toks, defs, tier):
     for nm, lib in (("syntax", lib_syntax), ("unterminated-comment", "pragma circom 2.0.0;\ntemplate LibOk() { signal input a; signal output b; b <== a; }\n/* never closed"),
                     ("lexical", "pragma circom 2.0.0;\ntemplate LibOk() { signal input a; @ }\n")):
         out.append(("included-only-file-%s" % nm, None, {"main.circom": top, "lib_bad.circom": lib}, ["main.circom"]))
+        # … also when the broken file is reached through other included files only (audit C05 round 2 f1: the error and the report at
+        # the include statement were both in files that are not named, so nothing was displayed)
+        mid = "pragma circom 2.0.0;\ninclude \"%s\";\ntemplate Mid%d() { signal input a; signal output b; b <== a; }\n"
+        top2 = base_plain.replace(";\n", ";\ninclude \"mid1.circom\";\n", 1)
+        out.append(("included-at-depth-2-file-%s" % nm, None, {"main.circom": top2, "mid1.circom": mid % ("lib_bad.circom", 1), "lib_bad.circom": lib}, ["main.circom"]))
+        out.append(("included-at-depth-3-file-%s" % nm, None, {"main.circom": top2, "mid1.circom": mid % ("mid2.circom", 1), "mid2.circom": mid % ("lib_bad.circom", 2),
+                                                               "lib_bad.circom": lib}, ["main.circom"]))
     for nm, lib in (("syntax", lib_syntax), ("collision", lib_collision)):
         out.append(("named-and-included-%s-lib-first" % nm, None, {"main.circom": top, "lib_bad.circom": lib}, ["lib_bad.circom", "main.circom"]))
         out.append(("named-and-included-%s-lib-last" % nm, None, {"main.circom": top, "lib_bad.circom": lib}, ["main.circom", "lib_bad.circom"]))
